@@ -1135,7 +1135,9 @@ DOMServices::isNodeAfter(
                     if (0 == prevChild1) // first time in loop?
                     {
                         // Edge condition: one is the ancestor of the other.
-                        isNodeAfter = (nParents1 < nParents2) ? true : false;
+                        // The descendant, which has the longer chain of
+                        // ancestors, is the one that's after the other.
+                        isNodeAfter = (nParents1 > nParents2) ? true : false;
 
                         break; // from while loop
                     }
